@@ -42,7 +42,7 @@ fn main() {
     let mut text = String::new();
     use std::io::Read;
     std::io::stdin().read_to_string(&mut text).unwrap();
-    println!("{}", c07::load_summary(&c07::unhex(text.trim())));
+    println!("{}", c07::load_summary2(&c07::unhex(text.trim()), true));
     return;
   }
   if args.len() >= 2 && args[1] == "fmtp" {
@@ -191,7 +191,9 @@ fn main() {
     v
   };
   let threads = std::thread::available_parallelism().map(|n| n.get()).unwrap_or(4).min(16);
+  let trace = std::env::var("MVH_TRACE").is_ok();
   let obs = par_map(&cases[..], threads, |c: &String| {
+    if trace { eprintln!("TRACE {}", c); }
     match std::panic::catch_unwind(|| exec(c)) {
       Ok(o) => o,
       Err(_) => "hostpanic".to_string(),
